@@ -23,9 +23,9 @@ ASSUMPTIONS = ['a goal is judged invalid only on a definite counter-model: free 
                'closed, function-free quantified sub-sentences whose bounded evaluation is inconclusive are decided by an '
                'independent guard-correct Z3 encoding (vf.hol3.Z3Oracle: nat binders relativised, truncated minus, total '
                'division); its unsat answers are trusted']
-REQUIRED = {'quick': {'z3_calls': 800, 'z3_accepted': 60, 'z3_countermodels_found': 300, 'sympy_calls': 400, 'sympy_accepted': 60, 'sympy_memo_differentials': 200,
+REQUIRED = {'quick': {'z3_goal_after_failing_call': 120, 'z3_calls': 800, 'z3_accepted': 60, 'z3_countermodels_found': 300, 'sympy_calls': 400, 'sympy_accepted': 60, 'sympy_memo_differentials': 200,
                       'check_z3_flag_true': 1},
-            'thorough': {'z3_calls': 15000, 'z3_accepted': 1000, 'z3_countermodels_found': 6000, 'sympy_calls': 8000, 'sympy_memo_differentials': 4000,
+            'thorough': {'z3_goal_after_failing_call': 2000, 'z3_calls': 15000, 'z3_accepted': 1000, 'z3_countermodels_found': 6000, 'sympy_calls': 8000, 'sympy_memo_differentials': 4000,
                          'sympy_accepted': 1000, 'check_z3_flag_true': 1}}
 SHARD_TIMEOUT = {'quick': 1200, 'thorough': 7200}
 
@@ -344,6 +344,20 @@ def run_z3_case(ctx, rng, goal, origin):
     elif rng.random() > 0.3:
         ctx.count('z3_skipped_no_countermodel')
         return
+    if cm is not None and origin != 'replay' and rng.random() < 0.3:
+        # W-HIST: a call that fails INSIDE the translation after its premises were handed to the solver (a curried
+        # function applied to one argument makes the z3 library raise), with the coming goal as its premise; what
+        # that call left behind must not help the next one
+        NAT = S.NAT
+        gf = ('var', 'vfg', S.funs(NAT, NAT, NAT))
+        poison = conn('implies', goal, app(c('equals', S.funs(S.fun(NAT, NAT), S.fun(NAT, NAT), B)),
+                                           ('comb', gf, ('var', 'vfa', NAT)), ('comb', gf, ('var', 'vfb', NAT))))
+        try:
+            theory.thy.check_proof(one_step('z3', S.to_repo_term(poison)), check_level=0)
+            ctx.count('z3_failing_call_accepted')
+        except Exception as e:
+            ctx.count('z3_failing_call_raised:' + type(e).__name__)
+        ctx.count('z3_goal_after_failing_call')
     ctx.count('z3_calls')
     try:
         th = theory.thy.check_proof(one_step('z3', S.to_repo_term(goal)), check_level=0)
